@@ -8,9 +8,16 @@ Streams
            otherwise) vs Lean quantizeModel (+ `applied`): hp call log, dictionary handed to
            model_quantize, rewritten units/filters, quantizers found on the trial model
   delta    real ForgivingFactorBits.delta() vs the float64 simulation with numpy's logs as oracle
+  ffapi    HISTORIES on one ForgivingFactorBits object through the public API (get_reference directly / via the
+           AutoQKHyperModel constructor / via AutoQKeras(goal={...}), get_trial, delta, cached get_reference,
+           re-assigned stress) for stress in {1, 1/2, 2, 0.8, 3/4, 5/4} in several argument forms x reference
+           models of different sizes, vs Lean runF (getReference / getTrial / deltaObj); delta_zero / _sign /
+           _monotone judged against the value get_reference RETURNS; reference_size attribute == that value
   size     real compute_model_size vs Lean computeModelSize
 Clause oracle (on the REAL outputs only): within_limit / from_config / excluded_unquantized /
-group_shared / architecture / adjust_documented / delta_zero / delta_sign / delta_monotone.
+group_shared / architecture / adjust_documented / delta_zero / delta_sign / delta_monotone / reference_tie.
+`layer_indexes` is generated in every legal form (None, empty list / tuple / range / array / set, [0], singletons,
+tuples, ranges, numpy arrays and integers, duplicates, re-assigned on a used hyper-model, through AutoQKeras).
 The limits the oracle judges with are derived from the USER's dictionary by `doc_limit` (the documented
 role-wise completion), never read back from `hm.limit`.
 """
@@ -108,10 +115,30 @@ def quiet():
   return contextlib.redirect_stdout(io.StringIO())
 
 
-def make_hm(ai, model, limit, cfg, target=None, **kw):
+class StubTuner:
+  """stand-in for a keras-tuner Tuner handed to `AutoQKeras(..., custom_tuner=StubTuner)`: keeps the
+  hyper-model the wrapper built, searches nothing"""
+
+  def __init__(self, hypermodel, **kw):
+    self.hypermodel = hypermodel
+    self.kw = kw
+
+  def search_space_summary(self):
+    pass
+
+
+NO_DIR = "/tmp/qkv-c20-no-such-output-dir"
+
+
+def make_hm(ai, model, limit, cfg, target=None, route="direct", **kw):
+  """the hyper-model, built directly or (route "AutoQKeras") by the public wrapper `AutoQKeras(...)`, which
+  forwards limit / layer_indexes / tune_filters / quantization_config and the goal to `AutoQKHyperModel`"""
   kw.setdefault("tune_filters", "none")
   kw.setdefault("tune_filters_exceptions", "^$")
   with quiet():
+    if route == "AutoQKeras":
+      return ai.AutoQKeras(model, metrics=["acc"], goal=target, output_dir=NO_DIR, custom_tuner=StubTuner,
+                           limit=copy.deepcopy(limit), quantization_config=cfg, **kw).hypermodel
     return ai.AutoQKHyperModel(model, ["acc"], target=target or StubTarget(), limit=copy.deepcopy(limit),
                                quantization_config=cfg, **kw)
 
@@ -167,6 +194,39 @@ def doc_limit(user_limit, registered, sequence):
           return None        # a recurrent class needs the 4-element default; the constructor asserts
         v = v + [role_default[r] for r in missing]
     out[key] = v
+  return out
+
+
+def li_canon(sel):
+  """a `layer_indexes` argument in any legal form (None / list / tuple / range / set / frozenset / numpy
+  array / numpy integers / duplicates) -> None or the sorted list of its members as python ints.  The code
+  reads it through `layer_id not in self.layer_indexes` only (Lean: C20_selection_membership_only)."""
+  return None if sel is None else sorted(int(i) for i in sel)
+
+
+def li_form(sel):
+  if sel is None:
+    return "None"
+  t = type(sel).__name__
+  if t == "list" and sel and all(isinstance(i, np.integer) for i in sel):
+    t = "list[np.int64]"
+  return t
+
+
+_CTOR = object()
+
+
+def kw_json(kw, sel=_CTOR):
+  """kwargs of a qm configuration in a JSON-able form (ranges, sets and arrays spelled out)"""
+  out = {}
+  for k, v in kw.items():
+    if k == "layer_indexes":
+      out[k] = {"form": li_form(v), "members": li_canon(v), "repr": repr(v)}
+    else:
+      out[k] = v
+  if sel is not _CTOR:
+    out["layer_indexes_now"] = {"form": li_form(sel), "members": li_canon(sel), "repr": repr(sel),
+                                "set_by": "attribute assignment after earlier trials on the same hyper-model"}
   return out
 
 
@@ -309,6 +369,34 @@ def qm_configs(tier, default_cfg):
                "Dense": [2]}, S, {}),
       # default 4-list whose recurrent slot is NARROWER than the activation one (a slot shifted the other way)
       ("mlp", {"default": [1, 8, 1, 6], "Dense": []}, S, {}),
+  ]
+  # SELECTED LAYER INDEXES in every legal argument form.  mlp layers: 0 input, 1 d0 (relu), 2 d1 (no bias),
+  # 3 act_1, 4 d_out, 5 softmax.  The limit gives a 4-assignment space when every layer is selected (fused
+  # activation of d0 x act_1), all of it asked for in the SECOND loop, i.e. only for selected layers.
+  # Falsy-but-legal selections: empty list / tuple / range / array / set / frozenset (nothing selected: the
+  # reference model must come back unquantized — NOT the same as None), [0] (only the input layer; a falsy
+  # MEMBER), indexes past the end; singletons, tuples, ranges, arrays, numpy integers, duplicates, everything.
+  LS = {"Dense": [1, 4, 3], "Activation": [3]}
+  forms = [[], (), range(0), np.array([], dtype=np.int64), set(),
+           [0], (5,), [7, 9], [3], (1,), range(2, 3), np.array([4]),
+           (1, 4), range(1, 4), np.array([1, 3]), {2, 3}, [np.int64(1), np.int64(3)], [3, 1, 3, 1],
+           range(0, 6)]
+  for k, f in enumerate(forms):
+    # every third form goes through the public wrapper AutoQKeras(..., layer_indexes=f, custom_tuner=stub)
+    out.append(("mlp", dict(LS), S, dict({"layer_indexes": f, "_real": 1}, **({"_route": "AutoQKeras"} if k % 3 == 0 else {}))))
+  out += [
+      # the same under pattern groups / on the conv model (BatchNormalization marked for conversion)
+      ("mlp", {"^d[01]$": [2, 4, 3], "Dense": [1, 4, 3]}, S, {"layer_indexes": (), "_real": 1}),
+      ("conv", {"Conv2D": [1, 4, 1], "bn_.*": [], "Dense": [1, 4, 3]}, S, {"layer_indexes": range(0), "_real": 1}),
+      ("conv", {"Conv2D": [1, 4, 1], "bn_.*": [], "Dense": [1, 4, 3]}, S, {"layer_indexes": np.array([2, 7]), "_real": 1}),
+      # selection x filter tuning: an unselected layer keeps its units (C20_excluded_unchanged)
+      ("mlp", {"Dense": [1, 4, 1]}, S, {"tune_filters": "layer", "layer_indexes": (1,), "_real": 1}),
+      ("mlp", {"Dense": [1, 4, 1]}, S, {"tune_filters": "block", "layer_indexes": [], "_real": 1}),
+      # HISTORY on one hyper-model: the public attribute `layer_indexes` re-assigned between trials
+      # (None -> [] -> (1, 3) -> range(0) -> array([4]) -> None; and starting from the empty selection)
+      ("mlp", dict(LS), S, {"layer_indexes": None, "_real": 1,
+                            "_reselect": [[], (1, 3), range(0), np.array([4]), None]}),
+      ("mlp", dict(LS), S, {"layer_indexes": [], "_real": 1, "_reselect": [None, (), [3]]}),
   ]
   if tier != "quick":
     out += [
@@ -538,7 +626,7 @@ def q_bits(obj):
   return None if b is None else int(b)
 
 
-def judge_qdict(run, limit, cfg, recs, excluded, qdict, mirrored, ctx):
+def judge_qdict(run, limit, cfg, recs, excluded, qdict, mirrored, ctx, sel="subset"):
   """clauses on the dictionary the REAL quantize_model handed to model_quantize"""
   role_index = {"kernel_quantizer": ("kernel", 0), "depthwise_quantizer": ("kernel", 0),
                 "bias_quantizer": ("bias", 1), "activation_quantizer": ("activation", -1),
@@ -551,8 +639,9 @@ def judge_qdict(run, limit, cfg, recs, excluded, qdict, mirrored, ctx):
     pkey, found = resolve(limit, name, cls)
     if i in excluded or pkey is None:
       if entry is not None:
-        run.violate("excluded_unquantized", {"site": "q_dict", "why": "index" if i in excluded else "outside"},
-                    dict(ctx, layer=name, entry=entry), mirrored)
+        run.violate("excluded_unquantized", {"site": "q_dict", "why": "index" if i in excluded else "outside",
+                                             "selection": sel},
+                    dict(ctx, layer=name, layer_index=i, entry=entry), mirrored)
       run.count("qdict_excluded" if i in excluded else "qdict_outside")
       continue
     if entry is None:
@@ -599,7 +688,7 @@ def judge_qdict(run, limit, cfg, recs, excluded, qdict, mirrored, ctx):
                   mirrored)
 
 
-def judge_qmodel(run, get_quantizer, limit, cfg, recs, excluded, model, qmodel, abits, mirrored, ctx):
+def judge_qmodel(run, get_quantizer, limit, cfg, recs, excluded, model, qmodel, abits, mirrored, ctx, sel="subset"):
   """clauses on the REAL trial model returned by quantize_model"""
   qlayers = list(qmodel.layers)
   if [l.name for l in qlayers] != [r["name"] for r in recs]:
@@ -625,8 +714,11 @@ def judge_qmodel(run, get_quantizer, limit, cfg, recs, excluded, model, qmodel, 
     if i in excluded or pkey is None:
       run.count("qmodel_untouched")
       if qcls != cls:
-        run.violate("excluded_unquantized", {"site": "q_model", "why": "index" if i in excluded else "outside"},
-                    dict(ctx, layer=name, cls=cls, got=qcls), mirrored)
+        run.violate("excluded_unquantized", {"site": "q_model", "why": "index" if i in excluded else "outside",
+                                             "selection": sel},
+                    dict(ctx, layer=name, layer_index=i, cls=cls, got=qcls,
+                         replay="AutoQKHyperModel(model, metrics, target, limit=limit, quantization_config=small, "
+                                "**kwargs).quantize_model(hp)[0].layers[layer_index]"), mirrored)
       continue
     if qcls == cls and cls != "Activation":
       run.count("qmodel_unconverted_" + cls)
@@ -714,6 +806,9 @@ def stream_qm(run, ai, rng, tier, default_cfg):
   max_exh = 2000
   budget_real = {"quick": 7, "thorough": 30}.get(tier, 7)
   budget_fast = {"quick": 64, "thorough": 600}.get(tier, 64)
+  # random scripts of a space too large to enumerate (on top of the every-option sweep); quick: 48 (was 64,
+  # trimmed in the C20-7/-8 strengthening round to pay for the layer_indexes forms and the forgiving API stream)
+  budget_sampled = {"quick": 48, "thorough": 600}.get(tier, 48)
   lines, impls, metas = [], [], []
   walls_qm = []
   try:
@@ -722,88 +817,119 @@ def stream_qm(run, ai, rng, tier, default_cfg):
       cfg = cfgs[cname]
       kw = dict(kw)
       abits = kw.pop("activation_bits", 4)
+      reselect = kw.pop("_reselect", None)
+      real_cap = kw.pop("_real", None)
+      route = kw.pop("_route", "direct")
       is_rnn = mk == "rnn"
-      hm = make_hm(ai, model, lim, cfg, activation_bits=abits, **kw)
       recs = [layer_rec(l) for l in model.layers]
       names = [r["name"] for r in recs]
+      try:
+        if route == "direct":
+          hm = make_hm(ai, model, lim, cfg, activation_bits=abits, **kw)
+        else:
+          import qkeras.autoqkeras.forgiving_metrics.forgiving_bits as fb_
+          hm = make_hm(ai, model, lim, cfg, target=fb_.ForgivingFactorBits(8, 8, 2, config={"default": ["parameters"]}),
+                       route=route, activation_bits=abits, **kw)
+        run.count("qm_route_" + route)
+      except Exception as e:  # pylint: disable=broad-except
+        # every configuration of this list is legal: the model's constructor accepts it
+        run.case(("qm_ctor", ci))
+        run.count("qm_ctor_raised")
+        run.disagree("qm.ctor", {"model": mk, "limit": lim, "kwargs": kw_json(kw)},
+                     {"err": type(e).__name__, "detail": str(e)[:200]}, "constructed")
+        continue
       mp = match_pairs(hm.limit, names)
       exc = [n for n in names if hm.tune_filters_exceptions.search(n)]
-      li = kw.get("layer_indexes")
-      excluded = set() if li is None else {i for i in range(len(recs)) if i not in li}
-      # discover the search space with one recorded dry run
-      mode["real"] = False
-      hm.groups = {}
-      probe = StubHP()
-      dims = None
-      try:
-        with quiet():
-          hm.quantize_model(probe)
-        dims = list(probe.dims)
-      except Exception:  # pylint: disable=broad-except
-        dims = list(probe.dims)
-      space = int(np.prod(dims)) if dims else 1
-      if space <= max_exh and space <= budget_fast:
-        scripts = list(itertools.product(*[range(d) for d in dims]))
-        run.count("qm_space_exhaustive")
-      else:
-        n = budget_fast if not is_rnn else budget_fast // 3
-        if is_rnn and isinstance(lim.get("default"), list) and len(lim["default"]) == 4 and ci == len(main) + 2:
-          n = budget_fast // 8          # the every-option sweep below already visits each slot's options
-        scripts = [tuple(int(rng.integers(0, d)) for d in dims) for _ in range(n)]
-        # every option of every dimension at least once
-        for j, d in enumerate(dims):
-          for v in range(d):
-            s = [int(rng.integers(0, dd)) for dd in dims]
-            s[j] = v
-            scripts.append(tuple(s))
-        scripts.append(tuple(d - 1 for d in dims))
-        run.count("qm_space_sampled")
-      run.extra.setdefault("qm_spaces", []).append({"model": mk, "limit": lim, "dims": dims, "assignments": space,
-                                                    "scripts_run": len(scripts)})
-      n_real = budget_real if not is_rnn else max(2, budget_real // 5)
-      if isinstance(lim.get("default"), list) and not is_rnn:
-        # partial entries completed from a list default: the trial MODEL of every assignment of a small space
-        n_real = max(n_real, min(len(scripts), 12))
-      real_ix = set(np.linspace(0, len(scripts) - 1, num=min(n_real, len(scripts)), dtype=int).tolist())
+      selections = [kw.get("layer_indexes")] + list(reselect or [])
       import time as _time
       _t0 = _time.time()
-      for si, script in enumerate(scripts):
-        mode["real"] = si in real_ix
+      for ki, sel in enumerate(selections):
+        if ki > 0:
+          hm.layer_indexes = sel          # public attribute, re-configured between trials of ONE object
+          run.count("qm_reselect")
+        li = li_canon(sel)
+        run.count("qm_layer_indexes_" + li_form(sel) + ("_empty" if li == [] else ""))
+        excluded = set() if li is None else {i for i in range(len(recs)) if i not in li}
+        kwj = kw_json(kw) if ki == 0 else kw_json(kw, sel)
+        if route != "direct":
+          kwj["route"] = "AutoQKeras(model, goal=ForgivingFactorBits, custom_tuner=stub, limit=..., **kwargs).hypermodel"
+        # discover the search space with one recorded dry run
+        mode["real"] = False
         hm.groups = {}
-        hp = StubHP(script)
-        cap.clear()
-        qmodel = None
+        probe = StubHP()
+        dims = None
         try:
           with quiet():
-            qmodel, _ = hm.quantize_model(hp)
-          impl = {"qdict": cap["q"], "arch": cap["arch"], "log": hp.rec}
-        except Exception as e:  # pylint: disable=broad-except
-          impl = {"err": ERR.get(type(e).__name__, type(e).__name__), "detail": str(e)[:200]}
-        if hp.repeated:
-          run.count("qm_repeated_hp_name")
-        if cap.get("mq_error"):
-          run.count("qm_model_quantize_raised_" + cap["mq_error"])
-        # the MODEL starts from the user's dictionary (its `adjustLimit` is part of the run) ...
-        lines.append({"op": "qm", "limit": lim_json(lim), "config": cfg_json(cfg), "matches": mp,
-                      "script": [[k, v] for k, v in hp.idx.items()],
-                      "script_f": [[k, v] for k, v in hp.idx_f.items()],
-                      "exc": exc, "tune_filters": hm.tune_filters, "layer_indexes": li, "layers": recs,
-                      "activation_bits": abits})
-        impls.append(impl)
-        obs = None
-        if qmodel is not None:
-          obs = [observed_applied(ql, r["cls"]) for r, ql in zip(recs, qmodel.layers)] \
-              if len(qmodel.layers) == len(recs) else "layer-count"
-        # ... and the ORACLE judges against the documented completion of the user's dictionary, derived
-        # independently of `_adjust_limit` / `hm.limit` (the limit the user SET, not the one the code kept)
-        doc = doc_limit(lim, ai.REGISTERED_LAYERS, ai.SEQUENCE_LAYERS)
-        if doc is None:
-          raise core.InfraError("qm configuration with a limit the constructor must refuse: %r" % (lim,))
-        metas.append({"ci": ci, "mk": mk, "lim": lim, "limit": doc, "hm_limit": copy.deepcopy(hm.limit),
-                      "cfg": cfg, "recs": recs,
-                      "excluded": excluded, "script": list(script), "abits": abits, "obs": obs,
-                      "model": model, "qmodel": qmodel, "kw": kw})
-      run.extra["qm_spaces"][-1]["real_model_quantize_runs"] = len(real_ix)
+            hm.quantize_model(probe)
+          dims = list(probe.dims)
+        except Exception:  # pylint: disable=broad-except
+          dims = list(probe.dims)
+        space = int(np.prod(dims)) if dims else 1
+        if space <= max_exh and space <= budget_fast:
+          scripts = list(itertools.product(*[range(d) for d in dims]))
+          run.count("qm_space_exhaustive")
+        else:
+          # rnn model (each trial clones an LSTM, ~0.4 s): 8 random scripts (was 21) + the every-option sweep
+          n = budget_sampled if not is_rnn else budget_sampled // 6
+          if is_rnn and isinstance(lim.get("default"), list) and len(lim["default"]) == 4 and ci == len(main) + 2:
+            n = budget_fast // 8          # the every-option sweep below already visits each slot's options
+          scripts = [tuple(int(rng.integers(0, d)) for d in dims) for _ in range(n)]
+          # every option of every dimension at least once
+          for j, d in enumerate(dims):
+            for v in range(d):
+              sc = [int(rng.integers(0, dd)) for dd in dims]
+              sc[j] = v
+              scripts.append(tuple(sc))
+          scripts.append(tuple(d - 1 for d in dims))
+          run.count("qm_space_sampled")
+        run.extra.setdefault("qm_spaces", []).append({"model": mk, "limit": lim, "dims": dims, "assignments": space,
+                                                      "scripts_run": len(scripts),
+                                                      "layer_indexes": None if sel is None else repr(sel)})
+        n_real = budget_real if not is_rnn else max(2, budget_real // 5)
+        if isinstance(lim.get("default"), list) and not is_rnn:
+          # partial entries completed from a list default: the trial MODEL of every assignment of a small space
+          n_real = max(n_real, min(len(scripts), 12))
+        if real_cap is not None:
+          n_real = real_cap
+        real_ix = set(np.linspace(0, len(scripts) - 1, num=min(n_real, len(scripts)), dtype=int).tolist())
+        for si, script in enumerate(scripts):
+          mode["real"] = si in real_ix
+          hm.groups = {}
+          hp = StubHP(script)
+          cap.clear()
+          qmodel = None
+          try:
+            with quiet():
+              qmodel, _ = hm.quantize_model(hp)
+            impl = {"qdict": cap["q"], "arch": cap["arch"], "log": hp.rec}
+          except Exception as e:  # pylint: disable=broad-except
+            impl = {"err": ERR.get(type(e).__name__, type(e).__name__), "detail": str(e)[:200]}
+          if hp.repeated:
+            run.count("qm_repeated_hp_name")
+          if cap.get("mq_error"):
+            run.count("qm_model_quantize_raised_" + cap["mq_error"])
+          # the MODEL starts from the user's dictionary (its `adjustLimit` is part of the run) ...
+          lines.append({"op": "qm", "limit": lim_json(lim), "config": cfg_json(cfg), "matches": mp,
+                        "script": [[k, v] for k, v in hp.idx.items()],
+                        "script_f": [[k, v] for k, v in hp.idx_f.items()],
+                        "exc": exc, "tune_filters": hm.tune_filters, "layer_indexes": li, "layers": recs,
+                        "activation_bits": abits})
+          impls.append(impl)
+          obs = None
+          if qmodel is not None:
+            obs = [observed_applied(ql, r["cls"]) for r, ql in zip(recs, qmodel.layers)] \
+                if len(qmodel.layers) == len(recs) else "layer-count"
+          # ... and the ORACLE judges against the documented completion of the user's dictionary, derived
+          # independently of `_adjust_limit` / `hm.limit` (the limit the user SET, not the one the code kept)
+          doc = doc_limit(lim, ai.REGISTERED_LAYERS, ai.SEQUENCE_LAYERS)
+          if doc is None:
+            raise core.InfraError("qm configuration with a limit the constructor must refuse: %r" % (lim,))
+          metas.append({"ci": ci, "ki": ki, "mk": mk, "lim": lim, "limit": doc, "hm_limit": copy.deepcopy(hm.limit),
+                        "cfg": cfg, "recs": recs,
+                        "excluded": excluded, "script": list(script), "abits": abits, "obs": obs,
+                        "model": model, "qmodel": qmodel, "kw": kwj,
+                        "sel": "none" if li is None else "empty" if not li else "subset"})
+        run.extra["qm_spaces"][-1]["real_model_quantize_runs"] = len(real_ix)
       walls_qm.append(round(_time.time() - _t0, 1))
   finally:
     ai.model_quantize = real_mq
@@ -811,14 +937,14 @@ def stream_qm(run, ai, rng, tier, default_cfg):
 
   outs = core.run_driver("C20", lines)
   for line, impl, o, m in zip(lines, impls, outs, metas):
-    ctx = {"model": m["mk"], "limit": m["lim"], "kwargs": {k: v for k, v in m["kw"].items()}, "script": m["script"],
+    ctx = {"model": m["mk"], "limit": m["lim"], "kwargs": m["kw"], "script": m["script"],
            "activation_bits": m["abits"]}
     if m["hm_limit"] != m["limit"]:
       # the hyper-model completed the user's dictionary differently from the documented rule
       ctx["documented_limit"] = m["limit"]
       ctx["hyper_model_limit"] = m["hm_limit"]
       run.count("qm_hm_limit_differs_from_documented")
-    run.case(("qm", m["ci"], tuple(m["script"])),
+    run.case(("qm", m["ci"], m["ki"], tuple(m["script"])),
              sample={"qm": ctx, "hp_calls": len(impl.get("log", [])), "q_dict": impl.get("qdict")}
              if m["script"] and m["script"][0] == 1 else None)
     run.compared += 1
@@ -842,9 +968,15 @@ def stream_qm(run, ai, rng, tier, default_cfg):
       mirrored = False
     for c in impl["log"]:
       run.count("qm_hp_" + c["k"])
-    judge_qdict(run, m["limit"], m["cfg"], m["recs"], m["excluded"], impl["qdict"], mirrored, ctx)
+    judge_qdict(run, m["limit"], m["cfg"], m["recs"], m["excluded"], impl["qdict"], mirrored, ctx, m["sel"])
+    if m["sel"] == "empty":
+      run.count("qm_empty_selection_trial")
     # architecture clause on the model handed to model_quantize
-    for r0, r1 in zip(m["recs"], impl["arch"]):
+    for li_, (r0, r1) in enumerate(zip(m["recs"], impl["arch"])):
+      if li_ in m["excluded"] and r1 != r0:
+        # a layer outside the selected indexes is handed over exactly as it was (units / filters included)
+        run.violate("excluded_unquantized", {"site": "pre_model_quantize", "why": "index", "selection": m["sel"]},
+                    dict(ctx, layer_index=li_, before=r0, after=r1), mirrored)
       same = {k: r0[k] for k in r0 if k != "size"} == {k: r1[k] for k in r1 if k != "size"}
       if r1["size"] != r0["size"]:
         run.count("qm_scaled_layer")
@@ -876,7 +1008,7 @@ def stream_qm(run, ai, rng, tier, default_cfg):
             app_ok = False
             run.disagree("qm.applied", dict(ctx, layer=nm), got, exp)
       judge_qmodel(run, get_quantizer, m["limit"], m["cfg"], m["recs"], m["excluded"], m["model"], m["qmodel"],
-                   m["abits"], mirrored and app_ok, ctx)
+                   m["abits"], mirrored and app_ok, ctx, m["sel"])
   return models
 
 
@@ -1130,6 +1262,214 @@ def stream_delta_models(run, ai, fb, models, default_cfg):
                   {"t1": e1, "d1": d1, "m1": n1, "t2": e2, "d2": d2, "m2": n2}, False)
 
 
+def stream_ff_api(run, ai, fb, models, rng, tier):
+  """The bonus as the search computes it: ONE ForgivingFactorBits object, `get_reference(model)` (directly or
+  through the AutoQKHyperModel constructor, which stores the returned value as `reference_size`), then
+  `get_trial(trial model)` / `delta()` for trial models of different sizes in a seeded order, a second
+  `get_reference` (cached) and a re-assigned `stress` in between.  "Reference size" of the property = the value
+  `get_reference` RETURNS; the clauses delta_zero / delta_sign / delta_monotone are judged in exact rationals on
+  (returned reference, returned trial size, delta()), for every stress (1, 1/2, 2, 0.8, 3/4, 5/4 as python
+  float / int / np.float32 / np.float64) x (delta_p, delta_n, rate) x size configuration x reference model;
+  `reference_size` attribute == returned value; returned value == size x stress.  The same history goes to the
+  Lean `runF` (getReference / getTrial / deltaObj, float64 instance, numpy's logs as oracle inputs)."""
+  import fractions
+  from qkeras import QDense
+  from qkeras.utils import model_quantize
+  from tensorflow.keras import layers as L
+  from tensorflow.keras.models import Model
+
+  def qb(b):
+    return "quantized_bits(%d,0,1)" % b
+
+  def tiny(kq=None, bq=None):
+    i = L.Input((4,), name="input")
+    if kq is None:
+      x = L.Dense(3, name="t")(i)
+    else:
+      x = QDense(3, kernel_quantizer=kq, bias_quantizer=bq, name="t")(i)
+    return Model(i, x)
+
+  def uniform(model, b):
+    qd = {}
+    for l in model.layers:
+      c = l.__class__.__name__
+      if c in ("Dense", "Conv1D", "Conv2D"):
+        qd[l.name] = {"kernel_quantizer": qb(b), "bias_quantizer": qb(b)}
+      elif c == "DepthwiseConv2D":
+        qd[l.name] = {"depthwise_quantizer": qb(b), "bias_quantizer": qb(b)}
+    with quiet():
+      return model_quantize(model, qd, 4)
+
+  import time as _time
+  _t0 = _time.time()
+  cfg = small_cfg()
+  hm_lim = {"Dense": [4, 8, 6], "Activation": [6]}
+  # trial models: size(reference) x b/8 with parameters only -> equal to the stressed reference for stress = b/8
+  fams = []
+  tr = [("q%d" % b, tiny(qb(b), qb(b))) for b in (1, 4, 6, 8, 10, 16)]
+  tr += [("q6_8", tiny(qb(6), qb(8))), ("q7_4", tiny(qb(7), qb(4)))]      # 96 bits = 0.8 x 120
+  fams.append(("tiny", tiny(), tr))
+  tr = [("u%d" % b, uniform(models["mlp"], b)) for b in (4, 6, 16)]
+  hm0 = make_hm(ai, models["mlp"], hm_lim, cfg)
+  for nm, script in (("hm_first", [0] * 12), ("hm_second", [1] * 12)):
+    hm0.groups = {}
+    with quiet():
+      tr.append((nm, hm0.quantize_model(StubHP(script))[0]))
+  fams.append(("mlp", models["mlp"], tr))
+  fams.append(("conv", models["conv"], [("u%d" % b, uniform(models["conv"], b)) for b in (4, 16)]))
+
+  stresses = [("1.0", 1.0), ("int 1", 1), ("0.5", 0.5), ("np.float32(0.5)", np.float32(0.5)), ("2.0", 2.0),
+              ("int 2", 2), ("np.float64(0.8)", np.float64(0.8)), ("0.75", 0.75), ("1.25", 1.25),
+              ("np.float32(0.8)", np.float32(0.8))]
+  params = [(8, 8, 2), (4.0, 12.0, 4.0)]
+  sizecfgs = [("parameters", {"default": ["parameters"]}),
+              ("parameters+activations", {"default": ["parameters", "activations"]})]
+  exact = {}
+
+  def size_of(model, scn, sc):
+    k = (id(model), scn)
+    if k not in exact:
+      exact[k] = int(fb.ForgivingFactorBits(8, 8, 2, config=copy.deepcopy(sc)).compute_model_size(model)[0])
+    return exact[k]
+
+  def rjn(x):
+    return None if x is None else core.rj(float(x) if isinstance(x, np.ndarray) else x)
+
+  lines, impls, metas = [], [], []
+  n_obj = 0
+  _t1 = _time.time()
+  for fam, ref, trials in fams:
+    for sname, stress in stresses:
+      for pi, (dp, dn, rate) in enumerate(params):
+        for scn, sc in sizecfgs:
+          if pi == 1 and scn != "parameters":
+            continue
+          n_obj += 1
+          kind = "one" if float(stress) == 1.0 else "other"
+          route = "direct" if fam != "mlp" else ("hyper_model", "auto_qkeras", "direct")[n_obj % 3]
+          first = None
+          if route == "auto_qkeras":
+            # the documented way: goal = {"type": "bits", "params": {..., "stress": s}} handed to AutoQKeras
+            goal = {"type": "bits", "params": {"delta_p": dp, "delta_n": dn, "rate": rate, "stress": stress,
+                                               "input_bits": 8, "output_bits": 8, "ref_bits": 8,
+                                               "config": copy.deepcopy(sc)}}
+            hm_ = make_hm(ai, ref, hm_lim, cfg, target=goal, route="AutoQKeras")
+            t = hm_.target
+            first = hm_.reference_size
+          else:
+            t = fb.ForgivingFactorBits(dp, dn, rate, stress=stress, config=copy.deepcopy(sc))
+          events, steps = [], []
+          base = {"reference_model": fam, "stress": sname, "delta_p_delta_n_rate": [dp, dn, rate],
+                  "size_config": sc, "route": route,
+                  "replay": "t = ForgivingFactorBits(delta_p, delta_n, rate, stress=stress, config=size_config); "
+                            "r = t.get_reference(reference_model)  [route hyper_model: AutoQKHyperModel(reference_model, "
+                            "metrics, target=t, ...).reference_size; route auto_qkeras: h = AutoQKeras(reference_model, "
+                            "goal={type: bits, params: {..., stress}}, ...).hypermodel; t = h.target; r = h.reference_size]; s = t.get_trial(trial_model); d = t.delta()"}
+          key = {"site": "api", "route": route, "stress": kind}
+
+          def snap(ret):
+            steps.append([rjn(ret), rjn(getattr(t, "reference_size", None)), rjn(getattr(t, "trial_size", None))])
+
+          def ref_call(model, how, ref_size):
+            if how == "auto_qkeras":
+              r_ = first
+            elif how == "hyper_model":
+              r_ = make_hm(ai, model, hm_lim, cfg, target=t).reference_size
+            else:
+              r_ = t.get_reference(model)
+            events.append(["ref", core.rj(ref_size)])
+            snap(r_)
+            # clause: the reference delta() scores against (the attribute) is the reference reported
+            if core.frac(t.reference_size) != core.frac(r_):
+              run.violate("reference_tie", key, dict(base, call=len(events), returned=float(r_),
+                                                     reference_size_attribute=float(t.reference_size)), False)
+            return r_
+
+          s_ref = size_of(ref, scn, sc)
+          r = ref_call(ref, route, s_ref)
+          R = core.frac(r)
+          if float(fractions.Fraction(s_ref) * core.frac(stress)) != float(r):
+            run.violate("size_bits", {"site": "get_reference", "stress": kind},
+                        dict(base, compute_model_size=s_ref, returned=float(r)), False)
+          order = [int(j) for j in rng.permutation(len(trials))]
+          seen = {}
+          last = None
+          for pos, j in enumerate(order):
+            tname, tm = trials[j]
+            s_tr = size_of(tm, scn, sc)
+            trv = t.get_trial(tm)
+            events.append(["trial", core.rj(s_tr)])
+            snap(trv)
+            with np.errstate(all="ignore"):
+              a = np.log(r / trv)
+              b = np.log(t.rate)
+            d = float(t.delta())
+            events.append(["delta", core.rj(a), core.rj(b)])
+            snap(d)
+            T, D = core.frac(trv), core.frac(d)
+            rel = "equal" if T == R else "below" if T < R else "above"
+            run.count("ffapi_stress_%s_%s" % (kind, rel))
+            det = dict(base, trial_model=tname, position_in_history=pos, returned_reference=float(r),
+                       reference_size_attribute=float(t.reference_size), returned_trial=float(trv), delta=d)
+            if T != fractions.Fraction(s_tr):
+              run.violate("size_bits", {"site": "get_trial", "stress": kind}, dict(det, compute_model_size=s_tr), False)
+            if rel == "equal" and D != 0:
+              run.violate("delta_zero", key, det, False)
+            elif rel == "below" and not D > 0:
+              run.violate("delta_sign", key, det, False)
+            elif rel == "above" and not D < 0:
+              run.violate("delta_sign", key, det, False)
+            seen[T] = (D, tname)
+            last = (tname, tm, trv, d)
+            if pos == 1:
+              # the reference is computed once: another model does not move it
+              r = ref_call(tm, "direct", s_tr)
+              if core.frac(r) != R:
+                R, seen = core.frac(r), {}
+            if pos == 3:
+              other = 3.0 if kind == "one" else 1.0
+              t.stress = other
+              events.append(["stress", core.rj(other)])
+              snap(None)
+              r = ref_call(ref, "direct", s_ref)
+              if core.frac(r) != R:
+                R, seen = core.frac(r), {}
+          ts = sorted(seen)
+          for t1, t2 in zip(ts, ts[1:]):
+            run.count("ffapi_monotone_pair")
+            if not seen[t1][0] > seen[t2][0]:
+              run.violate("delta_monotone", key,
+                          dict(base, returned_reference=float(R), t1=float(t1), m1=seen[t1][1], d1=float(seen[t1][0]),
+                               t2=float(t2), m2=seen[t2][1], d2=float(seen[t2][0])), False)
+          # the k-th use of the object scores like a fresh twin
+          tw = fb.ForgivingFactorBits(dp, dn, rate, stress=stress, config=copy.deepcopy(sc))
+          tw.get_reference(ref)
+          tw_tr = tw.get_trial(last[1])
+          tw_d = float(tw.delta())
+          if core.frac(tw_tr) != core.frac(last[2]) or tw_d != last[3]:
+            run.violate("delta_history", key, dict(base, trial_model=last[0], used_object=[float(last[2]), last[3]],
+                                                   fresh_twin=[float(tw_tr), tw_d]), False)
+          run.case(("ffapi", fam, sname, pi, scn))
+          lines.append({"op": "ffapi", "dp": core.rj(t.delta_p), "dn": core.rj(t.delta_n), "stress": core.rj(stress),
+                        "events": events})
+          impls.append(steps)
+          metas.append(dict(base, events=events))
+  _t2 = _time.time()
+  outs = core.run_driver("C20", lines)
+  for impl, o, meta in zip(impls, outs, metas):
+    run.compared += len(impl)
+    if o.get("steps") != impl:
+      bad = [i for i, (x, y) in enumerate(zip(impl, o.get("steps", []))) if x != y]
+      i0 = bad[0] if bad else -1
+      run.disagree("ffapi", dict({k: v for k, v in meta.items() if k != "events"}, first_differing_call=i0,
+                                 event=meta["events"][i0] if bad else None,
+                                 columns="[returned, reference_size attribute, trial_size attribute]"),
+                   impl[i0] if bad else impl, o.get("steps", o)[i0] if bad else o)
+  run.extra["ffapi_objects"] = n_obj
+  run.extra["ffapi_wall_s"] = {"build_trial_models": round(_t1 - _t0, 1), "histories": round(_t2 - _t1, 1),
+                               "driver+compare": round(_time.time() - _t2, 1)}
+
+
 def run(run: core.Run, tier: str):
   core.assert_repo_import()
   import qkeras.autoqkeras.autoqkeras_internal as ai
@@ -1146,6 +1486,8 @@ def run(run: core.Run, tier: str):
       "dictionary by the documented padding rule, independent of hm.limit; all index scripts when the space fits the tier budget, else seeded samples covering every "
       "option of every dimension; non-trivial = distinct (configuration, script); _get_quantizer call sequences "
       "with a shared group cache; delta on (delta_p, delta_n, rate, stress, integer sizes incl. ref, ref±1..3); "
+      "forgiving-factor HISTORIES through get_reference/get_trial/delta on one object for 10 stress forms x 3 "
+      "reference models x trial models whose size equals / undercuts / exceeds the STRESSED reference; "
       "compute_model_size on reference, model_quantize'd and hand-built mixed models x 4 size configurations")
   import time
   walls = {}
@@ -1159,6 +1501,7 @@ def run(run: core.Run, tier: str):
   walls["qm"] = round(time.time() - t0, 1); t0 = time.time()
   stream_delta(run, fb, rng, tier)
   stream_delta_models(run, ai, fb, models, default_cfg)
+  stream_ff_api(run, ai, fb, models, rng, tier)
   walls["delta"] = round(time.time() - t0, 1); t0 = time.time()
   stream_size(run, fb, ai, models, rng, tier, default_cfg)
   walls["size"] = round(time.time() - t0, 1)
